@@ -42,7 +42,7 @@ func init() {
 			"logical half (in-memory transport): every attempt context must carry a deadline no later than the caller's and no later than now + per-attempt timeout, and nothing is transmitted with an expired context. " +
 			"non-trivial = the call was still blocked when the fault started; distinct = distinct (step, fault, ratio)",
 		Assumptions: []string{"250 ms allowance for scheduling on a loaded 16-core machine; wall-clock verdicts are guarded by the canary, never by the check's own speed"},
-		Exhaustive:  func(string) bool { return true },
+		Exhaustive:  func(tier string) bool { return tier == "thorough" },
 		Gen: func(tier string, seed int64) []ev.Case {
 			var cs []ev.Case
 			ratios := [][2]int{{2000, 350}, {5000, 600}, {100, 1000}}
@@ -302,10 +302,8 @@ func c13UDP(run *ev.Run, p c13P, cs ev.Case) string {
 		run.Violation("C13:success-without-valid-response:"+p.Step, fmt.Sprintf("%s: call reported success although no valid response could have been obtained", desc), cs, nil)
 		return "violated"
 	}
-	run.Observe("max-overshoot-ms", 0)
-	if overshoot > 0 {
-		run.Event("overshoot-ms-total", int(overshoot/time.Millisecond))
-	}
+	run.Max("overshoot_ms", float64(overshoot)/1e6)
+	run.Max("canary_lateness_ms", float64(late)/1e6)
 	run.Sample(p.Step+":"+p.Fault, map[string]any{"step": p.Step, "fault": p.Fault, "timeout_ms": p.Timeout, "deadline_ms": p.Deadline, "overshoot_ms": float64(overshoot) / 1e6, "canary_late_ms": float64(late) / 1e6, "err": errStr(callErr)})
 	return "held"
 }
